@@ -250,6 +250,8 @@ def case_hash(obj) -> str:
 def quiet_progress():
     """Silence rich progress bars of the library (they print to stdout)."""
     try:
+        import logging
+        logging.disable(logging.CRITICAL)
         import sigpyproc.readers as r
         r.track = lambda seq, **kw: seq
     except Exception:  # noqa: BLE001
